@@ -206,8 +206,8 @@ double resetOneBranchMeasure(const runtime::QasmSimulator& pre, int q, SimStats&
     return lo == 1 ? t : 1 - t;
 }
 
-void runSimHistory(const std::vector<SimOp>& ops, const std::string& property, std::vector<Finding>& out, SimStats& st) {
-    runtime::QasmSimulator real(true);
+void runSimHistory(const std::vector<SimOp>& ops, const std::string& property, std::vector<Finding>& out, SimStats& st, bool logOn = true) {
+    runtime::QasmSimulator real(logOn);
     SV model;
     std::vector<bool> measured;
     std::vector<int> outcomes;
@@ -410,6 +410,7 @@ void runSimHistory(const std::vector<SimOp>& ops, const std::string& property, s
         }
     }
     // C05: the emitted text replays to the simulator's state
+    if (!logOn) return;
     std::string text = real.getQasm();
     refq::QasmProgram P = refq::parseQasm(text);
     if (!P.ok) { push("qasm_not_well_formed", "C05", P.error); return; }
@@ -669,7 +670,8 @@ ProgOutcome runProgram(const qh::Plan& plan, const std::string& property, uint64
     CoutCapture cap;
     gcs::beginRun(sched);
     {
-        runtime::RuntimeEvaluator ev;
+        bool logOn = run % 5 != 2;            // multi-shot mode runs every shot but the last without a QASM log
+        runtime::RuntimeEvaluator ev(logOn);
         if (run % 7 == 3) ev.setEcho(false);  // as multi-shot mode does for every shot
         try {
             ev.execute(*prog);
@@ -708,7 +710,7 @@ ProgOutcome runProgram(const qh::Plan& plan, const std::string& property, uint64
             }
         }
         // ---- end-of-run oracles (normal end, model in sync) ----
-        if (!pr.desync && R.status == 0 && pr.findings.empty()) {
+        if (!pr.desync && R.status == 0 && pr.findings.empty() && logOn) {
             // C05: emitted text
             std::string text = ev.getQasm();
             refq::QasmProgram P = refq::parseQasm(text);
@@ -861,9 +863,10 @@ qh::GenOptions genOptionsFor(const std::string& property, sim::Rng& knob) {
     return go;
 }
 
+bool g_simLogOn = true;
 std::string simClass(const std::vector<SimOp>& ops, const std::string& property, std::string& detail, SimStats& st) {
     std::vector<Finding> f;
-    runSimHistory(ops, property, f, st);
+    runSimHistory(ops, property, f, st, g_simLogOn);
     for (auto& x : f)
         if (owns(property, x.owner, x.cls)) { detail = x.detail; return x.cls; }
     return "";
@@ -887,6 +890,7 @@ void runOne(const sim::Options& opt, uint64_t run, sim::RunReport& rep) {
         g_rng.reset(opt.seed, run);
         g_rng.install();
         std::vector<SimOp> ops = genSimHistory(gen, property);
+        g_simLogOn = property == "C05" || run % 4 != 3;
         SimStats st;
         std::string detail;
         std::string cls = simClass(ops, property, detail, st);
@@ -939,7 +943,7 @@ void runOne(const sim::Options& opt, uint64_t run, sim::RunReport& rep) {
             v.detail = d1.empty() ? detail : d1;
             v.reproducible = c1 == cls && c2 == cls && d1 == d2;
             v.plan = planJson(true, min, qh::Plan{});
-            v.plan.set("rng_seed", Json((unsigned long long)opt.seed)).set("rng_run", Json((unsigned long long)run));
+            v.plan.set("rng_seed", Json((unsigned long long)opt.seed)).set("rng_run", Json((unsigned long long)run)).set("log_on", g_simLogOn);
             rep.violations.push_back(std::move(v));
         }
         rngs::Provider::uninstall();
@@ -1106,6 +1110,7 @@ int doReplay(const sim::Options& opt) {
         g_rng.reset(seed, run);
         g_rng.install();
         SimStats st;
+        g_simLogOn = !pj.has("log_on") || pj.at("log_on").asBool(true);
         cls = simClass(ops, property, detail, st);
     } else {
         qh::Plan p = qh::fromJson(pj.at("history"));
